@@ -581,10 +581,15 @@ class LoadMixin(AbstractLoaderGenerator, BaseLoadHook):
 
         fields = f'fields_{tp.field_i}'
 
+        typed_fields = f'typed_fields_{tp.field_i}'
+
         _locals = extras['locals']
         _locals[fields] = frozenset(tp.args)
+        # A value matches a `Literal` member only if the types agree too
+        # (PEP 586): `True` or `1.0` is not `Literal[1]`.
+        _locals[typed_fields] = frozenset((a, type(a)) for a in tp.args)
 
-        with fn_gen.if_(f'{tp.v()} in {fields}', comment=repr(tp.args)):
+        with fn_gen.if_(f'({tp.v()}, type({tp.v()})) in {typed_fields}', comment=repr(tp.args)):
             fn_gen.add_line('return v1')
 
         # No such Literal with the value of `o`
